@@ -60,8 +60,9 @@ func TestVerifC14(t *testing.T) {
 		now := time.Now()
 		headers := c14Headers()
 		verifierOutcomes := []string{"ok", "invalid", "oauth", "other", "nilinfo"}
-		required := [][]string{nil, {"a"}, {"a", "b"}}
-		granted := [][]string{nil, {"a"}, {"b"}, {"a", "b"}, {"b", "c", "a"}}
+		// (scope lists are sets: repeated entries change nothing)
+		required := [][]string{nil, {"a"}, {"a", "b"}, {"a", "a"}}
+		granted := [][]string{nil, {"a"}, {"b"}, {"a", "b"}, {"b", "c", "a"}, {"a", "a"}, {"b", "b", "c"}}
 		skews := []time.Duration{0, time.Nanosecond, 30 * time.Second}
 		type expCase struct {
 			name string
